@@ -133,10 +133,9 @@ Qed.
 
 Lemma next_grp pre ch post ws :
   ch <> DASH ->
-  (match pre with [] => True | x :: _ => x <> DASH end) ->
   next false (grp_pos pre ch post ws) = Ok (Some (EChar ch, grp_after pre ch post ws)).
 Proof.
-  intros Hc Hpre. unfold grp_pos. destruct pre as [|x pre'].
+  intros Hc. unfold grp_pos. destruct pre as [|x pre'].
   - unfold next, bw, mk. cbn [rest cpos nextval dashed next_words orb andb negb Nat.eqb].
     unfold rdc at 1. cbn [grp_word app length Nat.leb nth bind]. rewrite (ceq_refl DASH).
     cbn [negb orb andb Nat.eqb].
@@ -194,6 +193,159 @@ Lemma run_consumed s ic f i0 e i1 (X : res hstate) i2 :
 Proof.
   intros Hn He. unfold run at 1. rewrite Hn. cbn [bind]. rewrite iterate_step, He.
   destruct X as [s1|e1|f1]; reflexivity.
+Qed.
+
+
+(** position in a group word before the characters [post] (none left: the
+    next word) *)
+Definition grp_rest (pre post : list N) (ws : list str) : it :=
+  match post with
+  | [] => bw ws
+  | ch :: post' => grp_pos pre ch post' ws
+  end.
+
+Lemma grp_word_shift pre ch ch' post' : grp_word pre ch (ch' :: post') = grp_word (pre ++ [ch]) ch' post'.
+Proof. unfold grp_word. rewrite <- app_assoc. reflexivity. Qed.
+
+Lemma grp_after_rest pre ch post ws : grp_after pre ch post ws = grp_rest (pre ++ [ch]) post ws.
+Proof.
+  unfold grp_after, grp_rest. destruct post as [|ch' post']; [reflexivity|].
+  unfold grp_pos. rewrite <- grp_word_shift.
+  destruct (pre ++ [ch]) as [|y r] eqn:E; [destruct pre; discriminate|].
+  rewrite <- E, app_length. cbn [length]. replace (length pre + 1) with (S (length pre)) by lia. reflexivity.
+Qed.
+
+Lemma fold_uses_app ic us1 : forall us2 s,
+  fold_uses c s ic (us1 ++ us2) = do s1 <- fold_uses c s ic us1; fold_uses c s1 ic us2.
+Proof.
+  induction us1 as [|u r IH]; intros us2 s; [reflexivity|].
+  cbn [app fold_uses]. destruct (use_step c s ic u) as [s1|e|f]; cbn [bind]; auto.
+Qed.
+
+(** a run of flags inside a group behind one dash *)
+Lemma run_flags ic ws : forall fs pre post s f,
+  flags_ok c fs ->
+  run c s ic (length fs + f) (grp_rest pre (map snd fs ++ post) ws) =
+  do s1 <- fold_uses c s ic (map (fun p => UFlag (fst p)) fs);
+  run c s1 ic f (grp_rest (pre ++ map snd fs) post ws).
+Proof.
+  induction fs as [|[i ch] fr IH]; intros pre post s f Hok.
+  - cbn [map app length fold_uses bind]. rewrite app_nil_r. reflexivity.
+  - inversion Hok as [|? ? [Hs Hn] Hr]; subst. cbn [fst snd] in Hs, Hn.
+    cbn [map app length fst snd grp_rest fold_uses Nat.add].
+    rewrite (run_consumed s ic (length fr + f) _ (EChar ch) (grp_after pre ch (map snd fr ++ post) ws)
+               (use_step c s ic (UFlag i)) (grp_after pre ch (map snd fr ++ post) ws)).
+    + destruct (use_step c s ic (UFlag i)) as [s1|e|f1]; cbn [bind]; auto.
+      rewrite grp_after_rest, IH by assumption. rewrite <- app_assoc. reflexivity.
+    + apply next_grp. apply Hs.
+    + apply lookup_short_step; assumption.
+Qed.
+
+Lemma next_glued pre ch v ws :
+  v <> [] -> next true (grp_after pre ch v ws) = Ok (Some (EVal v, bw ws)).
+Proof.
+  intros Hv. destruct v as [|x v']; [congruence|].
+  unfold grp_after, next, mk, bw. cbn [rest cpos nextval dashed next_words orb andb negb Nat.eqb].
+  unfold cstr_at. rewrite length_grp. cbn [length].
+  replace (S (S (length pre)) <=? S (length pre + S (S (length v')))) with true
+    by (symmetry; apply Nat.leb_le; lia).
+  assert (E : skipn (S (S (length pre))) (grp_word pre ch (x :: v')) = x :: v').
+  { unfold grp_word.
+    change (skipn (S (S (length pre))) (DASH :: pre ++ ch :: x :: v'))
+      with (skipn (S (length pre)) (pre ++ ch :: x :: v')).
+    rewrite skipn_app, skipn_all2 by lia. replace (S (length pre) - length pre) with 1 by lia. reflexivity. }
+  rewrite E. reflexivity.
+Qed.
+
+Lemma bw_grp ch post ws : bw ((DASH :: ch :: post) :: ws) = grp_rest [] (ch :: post) ws.
+Proof. reflexivity. Qed.
+
+(** Every legal spelling of an abstract line is evaluated to [fold_uses] of
+    the line: same outcome (also the same error), same final state. *)
+Theorem spell_run ic us ws :
+  spell c us ws -> forall s f, run c s ic (length us + f) (bw ws) = fold_uses c s ic us.
+Proof.
+  induction 1 as [|i w us ws Hl Hn Hsp IH|i w v us ws Hl Hr Hsp IH|i w v us ws Hl Hr Hv Hsp IH
+                  |fs us ws Hne Hf Hsp IH|fs i ch v us ws Hf Hs Hr Hv Hsp IH|fs i ch v us ws Hf Hs Hr Hv Hsp IH];
+    intros s f.
+  - apply run_end.
+  - cbn [length Nat.add fold_uses].
+    pose proof Hl as (Hw & He & _).
+    rewrite (run_consumed s ic (length us + f) _ (EStr w) (bw ws) (use_step c s ic (UFlag i)) (bw ws)).
+    + destruct (use_step c s ic (UFlag i)); cbn [bind]; auto.
+    + rewrite next_long by assumption. rewrite He. reflexivity.
+    + apply lookup_long_step; assumption.
+  - cbn [length Nat.add fold_uses].
+    pose proof Hl as (Hw & He & k & Hk & Hlk).
+    rewrite (run_consumed s ic (length us + f) _ (EStr w)
+               (mk ((DASH :: DASH :: w ++ EQSIGN :: v) :: ws) (1 + length w + 2) true false)
+               (use_step c s ic (UVal i v)) (bw ws)).
+    + destruct (use_step c s ic (UVal i v)); cbn [bind]; auto.
+    + rewrite next_long by (destruct w; discriminate).
+      rewrite (index_of_app_eq w v He), firstn_app_exact. reflexivity.
+    + unfold eval_single. rewrite Hk. cbn [bind].
+      apply value_step; auto. apply next_eq_value.
+  - cbn [length Nat.add fold_uses].
+    pose proof Hl as (Hw & He & k & Hk & Hlk).
+    rewrite (run_consumed s ic (length us + f) _ (EStr w) (bw (v :: ws)) (use_step c s ic (UVal i v)) (bw ws)).
+    + destruct (use_step c s ic (UVal i v)); cbn [bind]; auto.
+    + rewrite next_long by assumption. rewrite He. reflexivity.
+    + unfold eval_single. rewrite Hk. cbn [bind].
+      apply value_step; auto. apply next_sep_value. exact Hv.
+  - rewrite app_length, map_length, <- Nat.add_assoc.
+    assert (E : bw ((DASH :: map snd fs) :: ws) = grp_rest [] (map snd fs ++ []) ws).
+    { destruct fs as [|[i0 ch0] fr]; [congruence|]. rewrite app_nil_r. reflexivity. }
+    rewrite E, run_flags by assumption. rewrite fold_uses_app.
+    destruct (fold_uses c s ic (map (fun p => UFlag (fst p)) fs)) as [s1|e|f1]; cbn [bind]; auto.
+  - rewrite app_length, map_length. cbn [length]. rewrite <- Nat.add_assoc.
+    assert (E : bw ((DASH :: map snd fs ++ ch :: v) :: ws) = grp_rest [] (map snd fs ++ ch :: v) ws).
+    { destruct fs as [|[i0 ch0] fr]; reflexivity. }
+    rewrite E, run_flags by assumption. rewrite fold_uses_app. cbn [app].
+    destruct (fold_uses c s ic (map (fun p => UFlag (fst p)) fs)) as [s1|e|f1]; cbn [bind]; auto.
+    cbn [grp_rest fold_uses Nat.add].
+    rewrite (run_consumed s1 ic (length us + f) _ (EChar ch) (grp_after (map snd fs) ch v ws)
+               (use_step c s1 ic (UVal i v)) (bw ws)).
+    + destruct (use_step c s1 ic (UVal i v)); cbn [bind]; auto.
+    + apply next_grp. apply Hs.
+    + unfold eval_single. apply value_step; auto; [apply Hs|]. apply next_glued. exact Hv.
+  - rewrite app_length, map_length. cbn [length]. rewrite <- Nat.add_assoc.
+    assert (E : bw ((DASH :: map snd fs ++ [ch]) :: v :: ws) = grp_rest [] (map snd fs ++ [ch]) (v :: ws)).
+    { destruct fs as [|[i0 ch0] fr]; reflexivity. }
+    rewrite E, run_flags by assumption. rewrite fold_uses_app. cbn [app].
+    destruct (fold_uses c s ic (map (fun p => UFlag (fst p)) fs)) as [s1|e|f1]; cbn [bind]; auto.
+    cbn [grp_rest fold_uses Nat.add].
+    rewrite (run_consumed s1 ic (length us + f) _ (EChar ch) (grp_after (map snd fs) ch [] (v :: ws))
+               (use_step c s1 ic (UVal i v)) (bw ws)).
+    + destruct (use_step c s1 ic (UVal i v)); cbn [bind]; auto.
+    + apply next_grp. apply Hs.
+    + unfold eval_single. apply value_step; auto; [apply Hs|].
+      unfold grp_after. apply next_sep_value. exact Hv.
+Qed.
+
+(** the constructor behaves like operator++ from "between words" on spelled lines *)
+Lemma first_spelled us ws : spell c us ws -> first ws = next false (bw ws).
+Proof.
+  intros H. destruct H; try reflexivity.
+  all: unfold first, next, bw, mk; cbn [rest cpos nextval dashed next_words orb andb negb Nat.eqb];
+    unfold rdc; cbn [length Nat.leb nth bind]; rewrite (ceq_refl DASH); cbn [negb orb andb Nat.eqb];
+    try reflexivity.
+  all: match goal with fs : list (nat * N) |- _ => destruct fs as [|[? ?] ?] end; try congruence; reflexivity.
+Qed.
+
+Lemma spell_size us ws : spell c us ws -> length us <= words_size ws.
+Proof.
+  unfold words_size. induction 1; cbn [length fold_right] in *;
+    repeat (rewrite ?app_length, ?map_length; cbn [length]); lia.
+Qed.
+
+(** evaluation of the words of any legal spelling = the spelling-free semantics *)
+Theorem eval_words_spelled ic us ws s :
+  spell c us ws -> eval_words c s ic ws = fold_uses c s ic us.
+Proof.
+  intros H. unfold eval_words. rewrite (first_spelled us ws H).
+  pose proof (spell_size us ws H) as Hs.
+  replace (S (words_size ws)) with (length us + (S (words_size ws) - length us)) by lia.
+  apply (spell_run ic us ws H s).
 Qed.
 
 End Steps.
